@@ -24,7 +24,8 @@ TECHNIQUE = 'bounded exhaustive enumeration of (old span, new span) pairs x span
 RULE = ('label universe of 5; old span = every duplicate-free sequence of length 0..2 (quick) / 0..3 (thorough), new span = every sequence with repetition '
         'of length 0..3 (quick) / 0..4 (thorough); 7 span-type pairs; 6 fill configurations x strict in {None, False, True}; containers with '
         'float/int/bool/str variables and models in 3 solve states with modified lags/leads and an ad-hoc attribute; pandas extension with defaults. '
-        'plus old spans that repeat a label (list/tuple spans, first occurrence). non-trivial = at least one period kept or one period filled')
+        'plus old spans that repeat a label (list/tuple spans, first occurrence). non-trivial = at least one period kept or one period filled'
+        ' Attributes named one character more than a variable.')
 ASSUMPTIONS = [
     'an old span that repeats a label (plain list / tuple spans only): the label denotes its first occurrence, as for every other label access (C10: list.index)',
     'fill values are compared after casting to the variable dtype by hand (int(), bool(), float(), str()[:width])',
